@@ -221,7 +221,7 @@ class Fn:
             if e[0] == "call" and e[2][0] == "path" and names_of(e[2])[-2:] == ["str", "from_utf8_unchecked"] and len(e[3]) == 1:
                 return "RUtf8 %s" % q(self.var_of(e[3][0], ("rawslice",), "a raw slice variable"))
             self.lost(e, "result of push_slice is not core::str::from_utf8_unchecked(<raw slice>)")
-        self.lost(e, "a value is returned from a function of unit type")
+        self.lost(e, "result expression is outside the subset (or a value is returned from a function of unit type)")
 
     # ---- statements ----
     def block(self, b, tail_returns):
